@@ -435,6 +435,33 @@ fn dump_fn<'tcx>(tcx: TyCtxt<'tcx>, ldid: LocalDefId) -> J {
         ]));
     }
 
+    let blocks = blocks_j(tcx, body, te);
+    let mut promoted = Vec::new();
+    for pb in tcx.promoted_mir(did).iter() {
+        promoted.push(J::Arr(blocks_j(tcx, pb, te)));
+    }
+
+    J::obj(vec![
+        ("id", J::s(&uid(tcx, did))),
+        ("path", J::s(&tcx.def_path_str(did))),
+        ("kind", J::s(match kind { DefKind::Closure => "closure", DefKind::AssocFn => "method", _ => "fn" })),
+        ("vis", J::s(vis_str(tcx, did))),
+        ("unsafe", J::Bool(is_unsafe)),
+        ("impl_of", impl_of),
+        ("trait_decl", trait_method),
+        ("root", parent_fn),
+        ("parent", direct_parent),
+        ("generics", J::Arr(generics)),
+        ("arg_count", J::Num(body.arg_count as i128)),
+        ("locals", J::Arr(locals)),
+        ("upvars", J::Arr(upvars)),
+        ("blocks", J::Arr(blocks)),
+        ("promoted", J::Arr(promoted)),
+        ("span", J::s(&span_str(tcx, tcx.def_span(did)))),
+    ])
+}
+
+fn blocks_j<'tcx>(tcx: TyCtxt<'tcx>, body: &Body<'tcx>, te: TypingEnv<'tcx>) -> Vec<J> {
     let mut blocks = Vec::new();
     for (_bb, data) in body.basic_blocks.iter_enumerated() {
         let mut stmts = Vec::new();
@@ -467,24 +494,7 @@ fn dump_fn<'tcx>(tcx: TyCtxt<'tcx>, ldid: LocalDefId) -> J {
         let tj = term_j(tcx, body, te, term);
         blocks.push(J::obj(vec![("cleanup", J::Bool(data.is_cleanup)), ("stmts", J::Arr(stmts)), ("term", tj)]));
     }
-
-    J::obj(vec![
-        ("id", J::s(&uid(tcx, did))),
-        ("path", J::s(&tcx.def_path_str(did))),
-        ("kind", J::s(match kind { DefKind::Closure => "closure", DefKind::AssocFn => "method", _ => "fn" })),
-        ("vis", J::s(vis_str(tcx, did))),
-        ("unsafe", J::Bool(is_unsafe)),
-        ("impl_of", impl_of),
-        ("trait_decl", trait_method),
-        ("root", parent_fn),
-        ("parent", direct_parent),
-        ("generics", J::Arr(generics)),
-        ("arg_count", J::Num(body.arg_count as i128)),
-        ("locals", J::Arr(locals)),
-        ("upvars", J::Arr(upvars)),
-        ("blocks", J::Arr(blocks)),
-        ("span", J::s(&span_str(tcx, tcx.def_span(did)))),
-    ])
+    blocks
 }
 
 fn place_j<'tcx>(tcx: TyCtxt<'tcx>, body: &Body<'tcx>, p: &Place<'tcx>) -> J {
@@ -675,6 +685,7 @@ fn rvalue_j<'tcx>(tcx: TyCtxt<'tcx>, body: &Body<'tcx>, te: TypingEnv<'tcx>, rv:
                 ("op", J::s(&format!("{:?}", op))),
                 ("a", operand_j(tcx, body, te, a)),
                 ("b", operand_j(tcx, body, te, c)),
+                ("float", J::Bool(a.ty(body, tcx).is_floating_point())),
             ])
         }
         Rvalue::UnaryOp(op, a) => J::obj(vec![("k", J::s("un")), ("op", J::s(&format!("{:?}", op))), ("a", operand_j(tcx, body, te, a))]),
